@@ -440,6 +440,13 @@ def generate(rnd, tier):
     for rep in range(3 if tier == "quick" else 25):
         for tag, t in G.directed(rnd):
             out.append(("directed:" + tag, t))
+    # stateful sequences over a tiny name pool (per-name binding stacks, push/pop, define after declare)
+    for rep in range(3 if tier == "quick" else 25):
+        for tag, t in G.stateful_directed(rnd):
+            out.append(("stateful:" + tag, t))
+    sg = G.StatefulGen(rnd)
+    for _ in range(150 if tier == "quick" else 2500):
+        out.append(("stateful-random", sg.script()))
     g = G.ScriptGen(rnd)
     good = []
     for i in range(n):
